@@ -4,9 +4,10 @@ rustrtc's string operations (`split_once`, `rsplit_once`, `split('&')`, `to_asci
 `starts_with`, substring `contains`) and its order of checks. Strings are `List Char`. Core Lean only.
 -/
 import RtcModel.IceCand
+import RtcModel.Generated.Consts
 
 namespace RtcModel.IceUri
-open RtcModel.IceCand
+open RtcModel.IceCand RtcModel.Generated
 
 inductive Kind where | stun | turn
 deriving DecidableEq, Repr
@@ -53,8 +54,8 @@ def containsSub (pat : Str) : Str → Bool
   | x :: xs => pat.isPrefixOf (x :: xs) || containsSub pat xs
 
 def defaultPort (scheme : Str) : Option Nat :=
-  if scheme = ['s', 't', 'u', 'n'] ∨ scheme = ['t', 'u', 'r', 'n'] then some 3478
-  else if scheme = ['s', 't', 'u', 'n', 's'] ∨ scheme = ['t', 'u', 'r', 'n', 's'] then some 5349 else none
+  if scheme = ['s', 't', 'u', 'n'] ∨ scheme = ['t', 'u', 'r', 'n'] then some iceUriDefaultPortPlain
+  else if scheme = ['s', 't', 'u', 'n', 's'] ∨ scheme = ['t', 'u', 'r', 'n', 's'] then some iceUriDefaultPortSecure else none
 
 def defaultTransport (scheme : Str) : Option Tr :=
   if scheme = ['s', 't', 'u', 'n'] ∨ scheme = ['t', 'u', 'r', 'n'] then some .udp
